@@ -16,7 +16,7 @@ if [ $applies = yes ]; then
   summary=$(CARGO_NET_OFFLINE=true cargo nextest run --workspace --no-fail-fast --offline 2>&1 | grep -E "Summary|tests run" | tail -1)
   tests="$summary"
   (cd seed_demo && CARGO_NET_OFFLINE=true cargo run --offline -q >/tmp/sv/$id.with.log 2>&1); with_rc=$?
-  git checkout -q -- src crates 2>/dev/null   # never git stash: the stash stack is shared by all worktrees
+  git checkout -q HEAD -- src crates 2>/dev/null   # (index too: --3way stages the patch) never git stash: the stash stack is shared by all worktrees
   (cd seed_demo && CARGO_NET_OFFLINE=true cargo run --offline -q >/tmp/sv/$id.without.log 2>&1); without_rc=$?
 fi
 cd /
